@@ -376,7 +376,21 @@ func checkC14(c *Ctx) {
 				map[string]any{"source": src, "observed": res.Stdout, "expected": want.String()})
 			continue
 		}
-		// host side: Value.String of the package-level variables
+		// host side: an instance made by the host from the type value, then Value.String of the package-level variables
+		// (whatever the host builds does not change how existing references are shown)
+		if st := res.VM.Get("main.S1"); !st.IsNil() {
+			func() {
+				defer func() {
+					if r := recover(); r != nil {
+						c.violate(hashKey("host-newstruct-panic"), fmt.Sprintf("NewStruct on the struct type S1 panicked: %v", r), map[string]any{})
+					}
+				}()
+				hs := goat.NewStruct(st, []goat.Value{goat.String("Name"), goat.String("h"), goat.String("A"), goat.Int(3)})
+				if got, want := hs.String(), "&{A:3 Name:h Ok:false F:0 B:0}"; got != want {
+					c.violate(hashKey("host-newstruct"), fmt.Sprintf("a struct made by NewStruct shows as %q, want %q", got, want), map[string]any{})
+				}
+			}()
+		}
 		for i := lo; i < hi; i++ {
 			hv := res.VM.Get(fmt.Sprintf("main.V%d", i))
 			if hv.String() != string(texts[i]) {
@@ -553,7 +567,62 @@ func c14Child(c *Ctx) {
 	os.Exit(0)
 }
 
+// c14Shared: slices that hold a PREFIX of themselves (or hold it through a map) are finite values: nothing is cut. The
+// expected text is fmt.Sprint of the same construction on native Go values.
+func c14Shared(c *Ctx) {
+	type cs struct{ script, want string }
+	var cases []cs
+	{
+		s := []any{1, nil}
+		s[1] = s[:1]
+		cases = append(cases, cs{"s := []any{1, nil}\ns[1] = s[:1]\n", fmt.Sprint(s)})
+	}
+	{
+		s := []any{1, nil, nil}
+		s[1] = s[:1]
+		s[2] = s[:2]
+		cases = append(cases, cs{"s := []any{1, nil, nil}\ns[1] = s[:1]\ns[2] = s[:2]\n", fmt.Sprint(s)})
+	}
+	{
+		s := []any{1, 2}
+		s = append(s, 3)
+		s = append(s, s)
+		cases = append(cases, cs{"s := []any{1, 2}\ns = append(s, 3)\ns = append(s, s)\n", fmt.Sprint(s)})
+	}
+	{
+		m := map[string]any{}
+		s := []any{7, nil}
+		m["k"] = s[:1]
+		s[1] = m
+		cases = append(cases, cs{"m := map[string]any{}\ns := []any{7, nil}\nm[\"k\"] = s[:1]\ns[1] = m\n", fmt.Sprint(s)})
+	}
+	{
+		s := []any{5, 6, nil}
+		s[2] = []any{s[:2], s[:1]}
+		cases = append(cases, cs{"s := []any{5, 6, nil}\ns[2] = []any{s[:2], s[:1]}\n", fmt.Sprint(s)})
+	}
+	for _, k := range cases {
+		for _, how := range []string{"println(s)", "fmt.Println(s)", "fmt.Print(s)\nfmt.Println()", "println(fmt.Sprint(s))", "println(fmt.Sprintf(\"%v\", s))"} {
+			src := "import \"fmt\"\n" + k.script + how + "\ns"
+			var out bytes.Buffer
+			vm := goat.New(goat.WithStdout(&out))
+			goat.VerifSetBudget(200000)
+			rets, err := vm.Eval(fstest.MapFS{}, "sh.go", src)
+			goat.VerifSetBudget(-1)
+			c.Evaluations++
+			host := ""
+			if err == nil && len(rets) == 1 {
+				host = rets[0].String()
+			}
+			if err != nil || out.String() != k.want+"\n" || host != k.want {
+				c.violate(hashKey(src), fmt.Sprintf("a slice that holds a prefix of itself prints as %q (host String %q), Go prints %q", strings.TrimSpace(out.String()), host, k.want), map[string]any{"source": src, "expected": k.want})
+			}
+		}
+	}
+}
+
 func c14Cyclic(c *Ctx) {
+	c14Shared(c)
 	self, err := os.Executable()
 	must(err)
 	var lines []map[string]any
